@@ -108,7 +108,45 @@ class World(object):
                     sec = self._section(t, op['path'])
 
                     if hasattr(sec, op['name']):
-                        setattr(sec, op['name'], copy.deepcopy(op['value']))
+                        # an attribute belongs to one section (the
+                        # container's own options, or its preamble / meta /
+                        # diff section): the others stay as they are
+                        which = op['name'].split('_')[0]
+
+                        if which not in ('preamble', 'meta', 'diff'):
+                            which = None
+
+                        parts = {}
+
+                        for part in ('preamble', 'meta', 'diff'):
+                            obj = getattr(sec, part + '_section', None)
+
+                            if obj is not None and part != which:
+                                parts[part] = (obj, trees.snapshot(obj))
+
+                        own = copy.deepcopy(dict(sec.options))
+
+                        try:
+                            setattr(sec, op['name'],
+                                    copy.deepcopy(op['value']))
+                        finally:
+                            for part, (obj, snap) in parts.items():
+                                now = trees.snapshot(obj)
+
+                                if not trees.snap_eq(now, snap):
+                                    problems.append((
+                                        'assignment-changed-another-section',
+                                        '%s = %r changed the %s section: %s'
+                                        % (op['name'], op['value'], part,
+                                           trees.snap_diff(snap, now))))
+
+                            if which is not None and \
+                                    not trees.snap_eq(dict(sec.options), own):
+                                problems.append((
+                                    'assignment-changed-another-section',
+                                    '%s = %r changed the container\'s own '
+                                    'options' % (op['name'], op['value'])))
+
                         self._count_mutation()
             elif name == 'list_op':
                 # the public changes / files lists edited in place
@@ -630,6 +668,20 @@ def scenarios():
             out.append([{'op': 'parse_garbage', 'data': TWINS},
                         {'op': 'mutate_meta', 't': 0, 'path': path,
                          'key': key, 'value': value}] + OBSERVE)
+
+    # every assignment on a file that carries statistics and a diff
+    for name, value in ASSIGNMENTS:
+        out.append([{'op': 'new', 'tree': {
+            'main': {}, 'via_constructor': True,
+            'changes': [{'attrs': {'meta': {'stats': {'files': 1}}},
+                         'files': [{'meta': {'path': 'p', 'stats': {
+                             'insertions': 1, 'deletions': 1,
+                             'lines changed': 2, 'x': 1}},
+                             'diff': b'@@ -1 +1 @@\n-a\n+b\n'}]}]}},
+            {'op': 'assign', 't': 0, 'path': [0, 0], 'name': name,
+             'value': value},
+            {'op': 'assign', 't': 0, 'path': [0, -1], 'name': name,
+             'value': value}] + OBSERVE[:3])
 
     # root options taken away one by one (or all), then serialised, then
     # another default tree made and serialised
